@@ -618,6 +618,9 @@ PROPS = {
         "level": "other",
         "units": ["nsecval"],
         "kani": [],
+        "replays": [
+            {"bin": "d55_validator_ttl0_panic", "crate": "replay_sign", "finding": "D55"},
+        ],
         "incrate_native": [
             {"test": "dnssec::validator::nsec::verif_native::c14_search_nsec3_labels", "kind": "search",
              "file": "native/incrate/validator_nsec.rs",
@@ -636,7 +639,9 @@ PROPS = {
                        "arbitrary results) has no reachable expect/unwrap/panic for any label. The interval predicates every "
                        "denial proof rests on: nsec_in_range == 'owner < target < next, the last NSEC of the zone covering "
                        "everything after its owner' and nsec3_in_range == the circular interval of RFC 5155 8.3 (real text, "
-                       "comparison operators written as method calls on models carrying the position in the total order).",
+                       "comparison operators written as method calls on models carrying the position in the total order). The validity clock of a cached "
+                       "node: Node::ttl (real text, Duration modelled as a number with a panicking `-`) is total however much time has passed and "
+                       "never exceeds the validity (this contract pins D55: a DNSKEY RRset served with TTL 0 made the validator panic).",
         "not_covered": "Soundness of 'secure' (signature chains to a trust anchor, NSEC/NSEC3 proofs), insecure-delegation handling, "
                        "every other panic site of the validator (e.g. get_checked_nsec's panic!(\"NSEC expected\"), "
                        "nsec3_hash(..).unwrap()), loops: async code over caches and crypto, out of reach.",
